@@ -300,6 +300,10 @@ def run(tier):
         base["seed"] = int(rng.integers(0, 2 ** 31 - 1))
         for mf in range(6, 76, 1 if tier == "thorough" else 2):
             insts.append(dict(base, id=1000 * (bi + 1) + mf, maxfun=mf))
+    # restarts.max_npt above (n+1)(n+2)/2 (legal: the range has no upper end) with restarts that add points until the cap is passed
+    for j in range(4 if tier == "quick" else 24):
+        insts.append(dict(id=5000 + j, seed=int(rng.integers(0, 2 ** 31 - 1)), n=2, m=4, prob="nl", restarts=["hard", "hardnew", "soft", "hard"][j % 4], maxunsucc=20, rhoend=1e-2,
+                          maxfun=int(rng.integers(250, 400)), incnpt=1, maxnpt_over=int(rng.integers(1, 5))))
     tcov, _ = sc.trace_part("C07", insts, V, os.path.join(wd, "traces"))
     # a hang observed in a whole-solver corpus (liveness of the real code) is also a C07 matter: covered by the trace checks' `terminates` clause
     cov = dict(states=r["distinct"] + mcov["states"], transitions=r["generated"] + mcov["transitions"], model_runs=mcov["model_runs"],
